@@ -129,6 +129,7 @@ Section Driver.
     else if is "ishl" then z2 (fun x y => if ((0 <=? y) && (y <=? 63))%Z then show_oZ (shl_fit x y) else "skip")
     else if is "ishr" then z2 (fun x y => if ((0 <=? y) && (y <=? 63))%Z then show_Z (shr x y) else "skip")
     else if is "isignum" then z1 (fun x => show_Z (signum x))
+    else if is "iand" then z2 (fun x y => show_Z (Z.land x y)) else if is "ior" then z2 (fun x y => show_Z (Z.lor x y))
     else if is "dadd" then d2' (fun x y => show_od (dec_add_exact x y)) else if is "dsub" then d2' (fun x y => show_od (dec_sub_exact x y))
     else if is "dmul" then d2' (fun x y => show_od (dec_mul_exact x y)) else if is "dneg" then d1' (fun x => show_dec (dec_neg x))
     else if is "dcmp" then d2' (fun x y => show_cmp (dec_cmp x y))
